@@ -80,7 +80,19 @@ def run_box(args):
     si, n, margin, accepted, filler, seed = args
     name, mk, kind, ms = scorers()[si]
     X = data(n, seed)
-    sc = mk().fit(X)
+    sc = mk()
+    if (si + n + seed) % 2 == 0:
+        # the scorer OBJECT has been fitted and used on data of another width before (1 and 4 columns): which cuts it
+        # accepts afterwards is a matter of the LAST fit only (seeded change C13-e: min_size remembered across fits)
+        wr = np.random.default_rng(seed + 31 * si)
+        for pw in (1, 4):
+            W = wr.normal(size=(16, pw)) + np.arange(16)[:, None] * (0.1 * (np.arange(pw) + 1))
+            try:
+                sc.fit(W)
+                sc.evaluate(np.array([{2: [0, 16], 3: [0, 8, 16], 4: [0, 3, 10, 16]}[kind]]))
+            except Exception:
+                pass   # e.g. a fixed 2 x 2 covariance does not fit 1 or 4 columns: not judged here
+    sc.fit(X)
     acc = {tuple(c) for c in accepted}
     fails = []
     n_eval = 0
